@@ -37,17 +37,24 @@ arbitrary instantiations of their lifetime parameters, and dropping values:
    branded is held after its callback returned, and nothing ever has a brand — such as `'static` or
    an outer region — that no callback introduced);
 2. every call that is possible in that state yields only values whose brand is the brand of a held
-   value the call consumed (so a value of arena A is produced only inside A's callback, from values
-   of A; it cannot be turned into a value of arena B, whatever else the program holds). -/
+   value the call consumed, and *every* branded input of that call has that same brand (so a value
+   of arena A is produced only inside A's callback, from values of A alone; it cannot be turned into
+   a value of arena B, whatever else the program holds, and a pointer of A cannot be combined with
+   the `Mutation` of B). -/
 theorem brand_flow_closed (T : Table) (hok : T.ok = true) {st : State} (hr : Reachable T st) :
     (∀ b ∈ st.held, b ∈ st.active) ∧
     (∀ (s : Sig) (σ : Subst), s ∈ T.sigs → s.callable = true → (∀ l ∈ s.inBrands, σ l ∈ st.held) →
-      ∀ b ∈ s.outBrands.map σ, (∃ l ∈ s.inBrands, σ l = b ∧ b ∈ st.held) ∧ b ∈ st.active) := by
+      ∀ b ∈ s.outBrands.map σ,
+        (∃ l ∈ s.inBrands, σ l = b ∧ b ∈ st.held) ∧ b ∈ st.active ∧ (∀ l' ∈ s.inBrands, σ l' = b)) := by
   have hi := reachable_inv hok hr
   refine ⟨hi.held_active, ?_⟩
   intro s σ mem hc inputs b hb
-  obtain ⟨l, hl, rfl⟩ := call_same_brand (Table.sig_ok hok mem) hc σ hb
-  exact ⟨⟨l, hl, rfl, inputs l hl⟩, hi.held_active _ (inputs l hl)⟩
+  have hs := Table.sig_ok hok mem
+  obtain ⟨l, hl, rfl⟩ := call_same_brand hs hc σ hb
+  refine ⟨⟨l, hl, rfl, inputs l hl⟩, hi.held_active _ (inputs l hl), ?_⟩
+  intro l' hl'
+  exact call_single_arena hs hc σ (List.mem_map.mpr ⟨l', List.mem_append_left _ hl', rfl⟩)
+    (List.mem_map.mpr ⟨l, List.mem_append_left _ hl, rfl⟩)
 
 /-- The same, as a statement about one call: the output brands are a function of the input brands.
 Two instantiations that agree on the lifetimes of the inputs agree on the outputs. -/
@@ -128,7 +135,8 @@ theorem mutant_escapes :
 
 /-- Non-vacuity of the table check: safe functions with a free result brand, a result brand that is
 merely *outlived* by an input brand, a brand taken from the impl header without a receiver, and a
-free reference lifetime are all rejected; the shapes of `Gc::downgrade`, `GcWeak::upgrade`,
+free reference lifetime, and an `upgrade` that takes its result brand from the `Mutation` instead of
+the pointer are all rejected; the shapes of `Gc::downgrade`, `GcWeak::upgrade`,
 `Gc::as_ref` are accepted. -/
 example :
     Sig.ok { name := "fn conjure<'gc>() -> Gc<'gc, ()>", isUnsafe := false, macroReachable := false,
@@ -139,6 +147,9 @@ example :
              outBrands := ["gc"], inBrands := [] } = false ∧
     Sig.ok { name := "fn leak<'a>(g: Gc<'gc, T>) -> &'a T", isUnsafe := false, macroReachable := false,
              outBrands := [], inBrands := ["gc"], outRefs := ["a"], inLts := ["gc"] } = false ∧
+    Sig.ok { name := "GcWeak<'gc, T>::upgrade<'m>(self, mc: &Mutation<'m>) -> Option<Gc<'m, T>>",
+             isUnsafe := false, macroReachable := false,
+             outBrands := ["m"], inBrands := ["gc", "m"], inLts := ["gc", "_1", "m"] } = false ∧
     Sig.ok { name := "Gc::downgrade", isUnsafe := false, macroReachable := false,
              outBrands := ["gc"], inBrands := ["gc"], inLts := ["gc"] } = true ∧
     Sig.ok { name := "GcWeak::upgrade", isUnsafe := false, macroReachable := false,
